@@ -392,3 +392,102 @@ Print Assumptions C03_tie_aesgcm_decrypt_src.
 Theorem C03_tie_gcm_decrypt_tag_src : ltac:(let t := type of SrcTie3Gcm.gcm_decrypt_tag_src in exact t).
 Proof. exact SrcTie3Gcm.gcm_decrypt_tag_src. Qed.
 Print Assumptions C03_tie_gcm_decrypt_tag_src.
+(* ================= work package `carry2`: C03 about the GENERATED encryption reader =================
+   Subject: EncryptionLayerReader::{new, initialize, read, seek} as translated from encrypt.rs on every run
+   (gen/Src3e.v).  reach_src: the states reached from new + initialize by ANY sequence of translated reads and
+   seeks (every whence, every argument).  Over ARBITRARY inner bytes w (any stream seekable over them): a translated
+   read at position p (chunk number * CHUNK + cache position) returns either nothing or bytes of a chunk of w whose
+   tag VERIFIED under the counter p / CHUNK, and advances by what it returned; an error leaves the position and an
+   empty cache; the only panic is the u32 chunk counter.  EncAuth.enc_read_authentic through enc_read_sim /
+   enc_seek_sim / enc_open_src (theories/Carry2Enc.v); added premise: CHUNK_TAG_SIZE <= u64::MAX (cts_fits). *)
+From MLA Require Carry2Enc.
+Theorem C03_enc_read_authentic_src :
+  forall (S : Stream) (CHUNK TAG : N) (ks : N -> N -> N) (tagc : N -> bytes -> bytes) (site_index : N),
+    0 < CHUNK -> forall fuel : nat, SrcTie3Enc.cts_fits CHUNK TAG ->
+  forall (w : bytes) (R : st S -> N -> Prop), Seekable S w R ->
+  forall (i0 : st S) (pin : N) (x : Src3e.EncryptionLayerInternal S) (n : N),
+    R i0 pin -> Carry2Enc.reach_src S CHUNK TAG ks tagc site_index fuel i0 x ->
+    exists (x' : Src3e.EncryptionLayerInternal S) (r : res bytes),
+      Src3e.elr_read S CHUNK TAG ks tagc (rd_fuel CHUNK TAG) 416 site_index 419 (Datatypes.S (Datatypes.S fuel)) x n = (x', r) /\
+      Carry2Enc.reach_src S CHUNK TAG ks tagc site_index fuel i0 x' /\
+      match r with
+      | Ok d =>
+        Carry2Enc.epos_src S CHUNK x' = Carry2Enc.epos_src S CHUNK x + len d /\
+        (d = [] \/ exists ct, Accepted CHUNK TAG tagc w (Carry2Enc.epos_src S CHUNK x / CHUNK) ct /\
+           d = sliceN (Carry2Enc.epos_src S CHUNK x mod CHUNK) (len d) (xor_from ks (Carry2Enc.epos_src S CHUNK x / CHUNK) 0 ct))
+      | Err _ => Carry2Enc.epos_src S CHUNK x' = Carry2Enc.epos_src S CHUNK x /\ Src3e.eli_cache S x' = [] /\ Src3e.eli_cache_pos S x' = 0
+      | Crash c => SrcTie3Enc.abs S x' = SrcTie3Enc.abs S x /\ c = 419 /\ 2 ^ 32 <= Src3e.eli_chunk S x + 1
+      end.
+Proof. exact Carry2Enc.enc_read_authentic_src. Qed.
+(* the states of the translated reader are states of the model's *)
+Theorem C03_reach_src_abs : ltac:(let t := type of Carry2Enc.reach_src_abs in exact t).
+Proof. exact Carry2Enc.reach_src_abs. Qed.
+
+(* non-vacuity THROUGH THE GENERATED CODE (toy cipher, CHUNK = 4, TAG = 2): the translated reader opened over the
+   wire with a flipped bit in chunk 1, after a read and a seek; the theorem applies to that state, and the read it
+   speaks of returns the bytes of chunk 0 — which verified *)
+Section ExSrc.
+  Let CH := 4. Let TG := 2.
+  Let plain : bytes := [1; 2; 3; 4; 5; 6; 7; 8; 9; 10].
+  Let wire := enc_format CH toy_ks (toy_tag TG) plain.
+  Let flipped := takeN 7 wire ++ [N.lxor (nth 7 wire 0) 1] ++ dropN 8 wire.
+  Let SB := Cursor flipped.
+  Let rdB := Src3e.elr_read SB CH TG toy_ks (toy_tag TG) (rd_fuel CH TG) 416 0 419 2%nat.
+  Let skB := Src3e.elr_seek SB CH TG toy_ks (toy_tag TG) (rd_fuel CH TG) 416 0 524 2%nat.
+  Let x0 := Src3e.mkELI SB 0 (Src3e.AesGcm256_new 0) [] 0 0.
+  Let x1 := fst (Src3e.elr_initialize SB CH TG toy_ks (toy_tag TG) (rd_fuel CH TG) (fun s => (s, Ok tt)) 416 0 524 1%nat x0).
+  Let x2 := fst (skB (fst (rdB x1 3)) (FromStart 1)).
+  Example C03_example_enc_read_authentic_src :
+    Carry2Enc.reach_src SB CH TG toy_ks (toy_tag TG) 0 0 0 x2 /\
+    (exists x' r, rdB x2 10 = (x', r) /\
+       match r with
+       | Ok d => d = [] \/ exists ct, Accepted CH TG (toy_tag TG) flipped (Carry2Enc.epos_src SB CH x2 / CH) ct /\
+                   d = sliceN (Carry2Enc.epos_src SB CH x2 mod CH) (len d) (xor_from toy_ks (Carry2Enc.epos_src SB CH x2 / CH) 0 ct)
+       | _ => True
+       end) /\
+    snd (rdB x2 10) = Ok [2; 3; 4] /\ snd (rdB (fst (rdB x2 10)) 10) = Err EWrongTag.
+  Proof.
+    assert (Hre : Carry2Enc.reach_src SB CH TG toy_ks (toy_tag TG) 0 0 0 x2).
+    { unfold x2. apply Carry2Enc.reach_src_seek. apply Carry2Enc.reach_src_read. unfold x1. apply Carry2Enc.reach_src_open. reflexivity. }
+    split; [exact Hre|]. split; [|split; vm_compute; reflexivity].
+    destruct (C03_enc_read_authentic_src SB CH TG toy_ks (toy_tag TG) 0 ltac:(reflexivity) 0%nat ltac:(vm_compute; discriminate)
+                flipped _ (C03_cursor_seekable flipped) 0 0 x2 10 eq_refl Hre) as (x' & r & Hr & _ & Hpost).
+    exists x', r. split; [exact Hr|]. destruct r as [d|e|c]; [exact (proj2 Hpost) | exact I | exact I].
+  Qed.
+End ExSrc.
+Print Assumptions C03_enc_read_authentic_src.
+Print Assumptions C03_reach_src_abs.
+Print Assumptions C03_example_enc_read_authentic_src.
+
+(* ---------- Tie A level 1, work package encW: what the TRANSLATED reader accepts is what the TRANSLATED writer wrote.  Over ANY
+   stream that behaves as a cursor over the bytes gen/Src3w.v's EncryptionLayerWriter (new; write_all of any pieces; finalize, with
+   the translated AesGcm256 of gen/Src3g.v) left after `base`, gen/Src3e.v's EncryptionLayerReader, instantiated with the cipher
+   parameters of the tie, behaves as a cursor over exactly the concatenation of the pieces ---------- *)
+From MLA Require SrcTie3EncW SrcTie3EncWCarry SrcTie3EncWEx.
+From MLAGen Require Src3w.
+Theorem C03_reader_refines_writer_src :
+  forall E, (forall k b, length b = 16%nat -> length (E k b) = 16%nat) ->
+  forall key prefix, len key = 32 -> len prefix = 8 ->
+  forall si sl gmul CHUNK CIPHERBUF, 0 < CHUNK -> forall is_interrupted, is_interrupted EState = false ->
+  forall ss base fuel pieces x,
+    SrcTie3EncW.src_archive E key prefix si sl gmul CHUNK CIPHERBUF is_interrupted ss base fuel pieces = Ok x ->
+  forall (S : Stream) (Rin : st S -> N -> Prop),
+    Refines S (dropN (len base) (Src3w.elw_inner bytes x)) Rin ->
+    nfull CHUNK (len (concat pieces)) + 2 < 2 ^ 32 ->
+    (len (concat pieces) / CHUNK + 1) * (CHUNK + 16) <= 2 ^ 64 - 1 -> len (concat pieces) < 2 ^ 63 ->
+  forall site_index rfuel,
+    Refines (SrcTie3EncC.EncReaderSrc S CHUNK 16 (SrcTie3EncW.ks_gcm E key prefix) (SrcTie3EncW.tagc_gcm E key prefix gmul) site_index rfuel)
+      (concat pieces)
+      (fun r p => Renc CHUNK 16 (SrcTie3EncW.ks_gcm E key prefix) (SrcTie3EncW.tagc_gcm E key prefix gmul) S (concat pieces) Rin
+                       (SrcTie3Enc.abs S r) p).
+Proof. exact SrcTie3EncWCarry.reader_refines_writer_src. Qed.
+Print Assumptions C03_reader_refines_writer_src.
+(* the tags of the tie's cipher are 16 bytes (the premise the reader theorems have on tagc) *)
+Theorem C03_tie_encw_tag_len :
+  forall E, (forall k b, length b = 16%nat -> length (E k b) = 16%nat) ->
+  forall key prefix gmul i c, len (SrcTie3EncW.tagc_gcm E key prefix gmul i c) = 16.
+Proof. exact SrcTie3EncWCarry.len_tagc. Qed.
+Print Assumptions C03_tie_encw_tag_len.
+(* non-vacuity: the translated writer run on concrete AES-256 / GHASH (three chunks, the premises hold) *)
+Check SrcTie3EncWEx.src_writer_three_chunks.
+Check SrcTie3EncWEx.src_writer_hyps.
